@@ -52,6 +52,9 @@ class BadSpec(Exception):
 def setup_repo_path() -> None:
     """Make sure gtirb_rewriting is imported from /repo's working tree."""
     os.environ.setdefault(HOOK_GUARD, "1")
+    import logging
+
+    logging.disable(logging.CRITICAL)
     if REPO_SRC not in sys.path[:1]:
         sys.path.insert(0, REPO_SRC)
     import gtirb_rewriting
